@@ -213,6 +213,26 @@ func c09(args []string) {
 			jobs = append(jobs, &job{s: s2, exp: exp, mode: kind, cfg: cfg, fp: p.Name, idx: unformIdx})
 		}
 	}
+	// shapes in which the workflow's sink drains a file branch and a parameter branch (RunTo cuts, unconsumed
+	// parameter sources): a task that fails after the parameter stream is long closed must still fail the program
+	for _, s := range c05Shapes(c, rng) {
+		if !strings.HasPrefix(s.Name, "danglingparam") && !strings.HasPrefix(s.Name, "runtocut") && !strings.HasPrefix(s.Name, "runtoparamchain") && !strings.HasPrefix(s.Name, "leaves") {
+			continue
+		}
+		exp := evalRef(s, nil)
+		if exp.Err != "" || len(exp.Tasks) == 0 {
+			continue
+		}
+		for k := 0; k < c.Pick(2, 6); k++ {
+			f := exp.Tasks[rng.Intn(len(exp.Tasks))]
+			if len(f.Outs) == 0 {
+				continue
+			}
+			mode := []string{"exit-after-write", "exit-mid-write", "omit-output", "sigkill-shell"}[k%4]
+			bh := vproto.Behaviours{f.Key: {"fail": mode, "sleep": "120"}}
+			jobs = append(jobs, &job{s: s, exp: exp, f: f, mode: mode, bh: bh, cfg: Cfg{Buf: []int{1, 128}[k%2], Procs: 4}, idx: -1})
+		}
+	}
 	run.Parallel(len(jobs), func(i int) {
 		j := jobs[i]
 		root := c.CaseDir()
@@ -227,7 +247,8 @@ func c09(args []string) {
 			return
 		}
 		ti := mon.Index(res.Trace)
-		if j.f != nil && len(ti.Starts[j.f.Key]) == 0 {
+		if j.f != nil && len(ti.Starts[j.f.Key]) == 0 && !(res.Returned && res.Exit == 0) {
+			// (a program that reports completion although the task that has to fail was not even run is judged below)
 			c.Inconclusive("the failing task never started")
 			return
 		}
